@@ -11,6 +11,7 @@ CONSTANTS
   Counts = {1, 2}
   Thresholds <- ThrZ0
   ZeroCounts = {0}
+  BZeroCounts = {0}
   Bounds = {1, 2, 3}
   Kinds = {"exp", "cb"}
   Types = {"float"}
